@@ -60,6 +60,10 @@ func (p *parseComp) Impl(c Case) []string {
 		case "parse cfg":
 			defs.InputLogMaxMessageBytes = int(o.Ints[0])
 			defs.InputLogMaxRecordBytes = int(o.Ints[1])
+			defs.InputLogMinRecordBytesToPool = 1024
+			if len(o.Ints) > 2 {
+				defs.InputLogMinRecordBytesToPool = int(o.Ints[2])
+			}
 			levels := make([]string, len(o.Bytes))
 			for j, b := range o.Bytes {
 				levels[j] = string(b)
@@ -212,8 +216,12 @@ func (p *parseComp) Class(c Case, impl []string) string {
 			continue
 		}
 		switch {
+		case strings.HasPrefix(impl[i], "panic"):
+			cls["panic"] = true
 		case strings.HasPrefix(impl[i], "drop"):
 			cls["drop"] = true
+		case len(strings.Fields(impl[i])) < 12:
+			cls["other"] = true
 		case strings.HasSuffix(strings.Fields(impl[i])[11], "1"):
 			cls["pass-overflow"] = true
 		default:
@@ -221,7 +229,7 @@ func (p *parseComp) Class(c Case, impl []string) string {
 		}
 	}
 	ks := []string{}
-	for _, k := range []string{"pass", "pass-overflow", "drop"} {
+	for _, k := range []string{"pass", "pass-overflow", "drop", "panic", "other"} {
 		if cls[k] {
 			ks = append(ks, k)
 		}
@@ -310,12 +318,13 @@ var badLines = []string{
 }
 
 func (p *parseComp) Generate(rng *rand.Rand, n int, emit func(Case)) {
+	poolMin := 1024
 	cfgOp := func(maxMsg, maxRec int, levels []string) Op {
 		bs := make([][]byte, len(levels))
 		for i, l := range levels {
 			bs[i] = []byte(l)
 		}
-		return Op{Name: "parse cfg", Ints: []int64{int64(maxMsg), int64(maxRec)}, Bytes: bs}
+		return Op{Name: "parse cfg", Ints: []int64{int64(maxMsg), int64(maxRec), int64(poolMin)}, Bytes: bs}
 	}
 	lineOp := func(b []byte, meta string) Op { return Op{Name: "parse line", Bytes: [][]byte{b}, Meta: meta} }
 	levelSets := [][]string{syslogprotocol.SeverityNames, syslogprotocol.SeverityToLog4jLevel, {"0", "1", "2", "3", "4", "5", "6", "7"}}
@@ -352,7 +361,23 @@ func (p *parseComp) Generate(rng *rand.Rand, n int, emit func(Case)) {
 			emit(Case{Ops: ops, Tag: "real-limits"})
 		}
 	}
+	// pooled records: records above the pooling threshold of one size class with changing PRI / fields, released in between
+	for i := 0; i < n/200+10; i++ {
+		ops := []Op{cfgOp(4000, 4256, levelSets[i%len(levelSets)])}
+		size := 1100 + rng.Intn(800)
+		for j := 0; j < 10; j++ {
+			pri := []int{163, 134, 13, 86, 191, 100, 7}[rng.Intn(7)]
+			line := fmt.Sprintf("<%d>1 2019-08-15T15:50:4%dZ host%d app%d %d src%d - ", pri, j, rng.Intn(9), rng.Intn(9), rng.Intn(99), j)
+			pad := size - len(line) + rng.Intn(100)
+			if rng.Intn(4) == 0 {
+				pad = rng.Intn(60)
+			}
+			ops = append(ops, lineOp(append([]byte(line), randMsg(rng, pad)...), "wf"))
+		}
+		emit(Case{Ops: ops, Tag: "pooled"})
+	}
 	for i := 0; i < n/8; i++ {
+		poolMin = []int{1024, 8, 40}[rng.Intn(3)]
 		lim := limits[rng.Intn(len(limits))]
 		ops := []Op{cfgOp(lim[0], lim[1], levelSets[rng.Intn(len(levelSets))])}
 		for j := 0; j < 8; j++ {
